@@ -11,7 +11,7 @@ LEVEL = "exploration"
 RTOL = 1e-4
 RTOL_CCV = 1e-3     # >= 2 pwl segments: constrained cost variables, objective accurate to the interior-point tolerance only
 META = {
-    "text": "Every OPF problem built from a 2-bus and a 3-bus (fused 4th bus) net (thorough: also a meshed 4-bus net with binding line limits) by making 1-2 (thorough 1-3) of {gen, sgen, load, storage, dcline} controllable and giving each of them and the ext_grid one cost entry from an alphabet of 18 kinds (poly c1 / c2,c1 / c2,c1,c0 / q-costs, pwl with 1 and 2 segments for p and q, coefficients from {-2,0,1,3}) is solved by the real runopp and rundcopp; on convergence res_cost is compared with the sum of the user's functions at each element's own reported power, and for convex DC problems with the exact optimum obtained by enumerating all active sets of the DC-OPF written down from the element tables.",
+    "text": "Every OPF problem built from a 2-bus and a 3-bus (fused 4th bus) net (thorough: also a meshed 4-bus net with binding line limits) by making 1-2 (thorough 1-3) of {gen, sgen, load, storage, dcline, second dcline} controllable and giving each of them and the ext_grid one cost entry from an alphabet of 18 kinds (poly c1 / c2,c1 / c2,c1,c0 / q-costs, pwl with 1 and 2 segments for p and q, coefficients from {-2,0,1,3}) is solved by the real runopp and rundcopp; on convergence res_cost is compared with the sum of the user's functions at each element's own reported power, and for convex DC problems with the exact optimum obtained by enumerating all active sets of the DC-OPF written down from the element tables.",
     "note": "Trusted: mc/e_qp.py (numpy KKT solves of every active set; DC model from the documented element equations, lines only) and the cost bookkeeping in checks/C17.py. Cost-function convention: element's own variable (load/storage consumption positive, dcline power at the from bus); pwl f = slope_1*p on the first segment. Documented refusals/limitations (pwl mixed with quadratic, >1 pwl segment for loads/storages/q) are outcomes, not violations. Relative tolerance 1e-4 (1e-3 with >= 2 pwl segments) of the gross cost.",
     "technique": "bounded exhaustive input enumeration on the real OPF with a bookkeeping oracle and an exact active-set-enumeration reference optimum",
     "design_ref": "DESIGN.md §3 E1, §4 C17, §2.4 qp",
@@ -59,6 +59,8 @@ def elem_catalog(b):
         "load": ["load", h, 1.5 * s, 0.5 * s, "w", "w", True],
         "storage": ["storage", h, 0.6 * s, 0.2 * s, "wn", "w", True],
         "dcline": ["dcline", 0, h1, 0.5 * s, 0., 0., 2. * s, "w"],
+        # a second dc line (cost entries on a dc line that is not the first row of net.dcline)
+        "dcline2": ["dcline", 0, h, 0.3 * s, 0., 0., 1.5 * s, "w"],
     }
 
 
@@ -110,6 +112,7 @@ def mk_case(b, types, kinds, egkind, mode, blim="none", extra=()):
 def gen_cases(tier):
     cases = []
     types = ["gen", "sgen", "load", "storage", "dcline"]
+    types2 = types + ["dcline2"]          # pairs also with a second dc line
     modes = ["ac", "dc"]
 
     def add(b, ts, ks, eg, blim="none", extra=()):
@@ -125,7 +128,7 @@ def gen_cases(tier):
                     add(b, [t], [k], eg)
     # k = 2: every pair of types x reduced (thorough: full) kind alphabet
     for b, k2 in ((("D2", K_RED), ("R3", K_RED4)) if tier == "quick" else (("D2", K_ALL), ("R3", K_RED))):
-        for ta, tb in itertools.combinations(types, 2):
+        for ta, tb in itertools.combinations(types2 if b == "D2" else types, 2):
             for ka in k2:
                 for kb in k2:
                     for eg in (["L3", "Q"] if tier == "quick" else K_EG):
@@ -136,11 +139,12 @@ def gen_cases(tier):
         h = eo.HOT[b][0]
         for t in ("sgen", "load", "storage"):
             fixed = [t, h, 0.7 * s, 0.1 * s, "x", "x", False]
-            for k in ("L1", "L3c", "Q1"):
-                for eg in ("L3", "Q"):
+            for k in ("L1", "L3c", "Q1", "W1"):
+                for gk, eg in (("L1", "L3"), ("L1", "Q"), ("W1", "W"), ("L-2", "W")):
                     for mode in modes:
-                        # a controllable gen with a cost + a FIXED element with a cost entry
-                        c = mk_case(b, ["gen"], ["L1"], eg, mode)
+                        # a controllable gen with a cost + a FIXED element with a cost entry that comes FIRST in the
+                        # cost table (poly and pwl): rows without an OPF generator must not shift the others
+                        c = mk_case(b, ["gen"], [gk], eg, mode)
                         c["elems"].append(fixed)
                         c["costs"].insert(0, cost_dev(len(c["elems"]) - 1, k, limits_of(fixed, s), s))
                         c["kinds"].append("fixed:" + k)
